@@ -175,6 +175,10 @@ def composite_codec_encode_into_pdu(codec: CompositeCodec, physical_value: Optio
 
     encode_state.is_end_of_pdu = False
 
+    # the position where the object which follows the composite codec
+    # object is located (unless it specifies its position explicitly)
+    end_cursor_position = encode_state.cursor_byte_position
+
     # encode the length- and table keys. This cannot be done above
     # because we allow these to be defined implicitly (i.e. they
     # are defined by their respective users)
@@ -185,6 +189,12 @@ def composite_codec_encode_into_pdu(codec: CompositeCodec, physical_value: Optio
 
         # Encode the value of the key parameter into the message
         param.encode_value_into_pdu(encode_state=encode_state)
+
+        end_cursor_position = max(end_cursor_position, encode_state.cursor_byte_position)
+
+    # encoding the keys must not change the location of subsequent
+    # objects
+    encode_state.cursor_byte_position = end_cursor_position
 
     encode_state.origin_byte_position = orig_origin
 
